@@ -195,7 +195,7 @@ fn main() -> anyhow::Result<()> {
         let dim = dims[pick(&mut rng, "dim_i", dims.len())];
         let strat_i = pick(&mut rng, "strat_i", 4);
         let persist = pick(&mut rng, "persist", 5) == 0;
-        let soft_i = pick(&mut rng, "soft_i", 2);
+        let soft_i = pick(&mut rng, "soft_i", 3);
         let cap_i = pick(&mut rng, "cap_i", 4);
         let unnorm = pick(&mut rng, "unnorm", 4) == 0;
         let fam = VecFamily::new(metric, dim, seed ^ ((bi as u64) << 9), unnorm);
@@ -205,7 +205,7 @@ fn main() -> anyhow::Result<()> {
         let _ = std::fs::remove_dir_all(&dir);
         let index_cap = if cap_i == 0 { ni as usize + 1 } else { 1000 };
         let cfg = TieredEngineConfig {
-            hot_tier_max_size: if soft_i == 0 { 1 } else { hard.max(1) },
+            hot_tier_max_size: if soft_i == 0 { 1 } else if soft_i == 1 { hard.max(1) } else { 10_000 }, // below, at, or far above the hard limit
             hot_tier_hard_limit: hard,
             hot_tier_max_age: Duration::from_secs(3600),
             hnsw_max_elements: index_cap,
